@@ -6,7 +6,7 @@ namespace Goml.GoComp
 open Goml Goml.Go Goml.GoCompile Goml.GoFrag
 open Goml.Sem (Val World Res Fail)
 open Goml.C01 (toG)
-open Goml.Dce (keys allDecls lookup_cons_self lookup_cons_ne lookup_none_of_not_key key_of_lookup_some)
+open Goml.Dce (keys lookup_cons_self lookup_cons_ne lookup_none_of_not_key key_of_lookup_some)
 
 attribute [local irreducible] Goml.GoCompile.vn Goml.GoCompile.gid Goml.GoCompile.rn
 
@@ -16,6 +16,25 @@ theorem toG_bool {env : Env} {b gv} (h : toGV env (.bool b) = some gv) : gv = .b
   rw [toGV] at h; injection h with h; exact h.symm
 
 /-- the shape of a compiled call of the fragment: an ordinary Go call of `vn name` -/
+theorem toGVs_length {env : Env} : ∀ {vs : List Val} {gs : List GVal}, toGVs env vs = some gs → gs.length = vs.length
+  | [], gs, h => by simp [toGVs] at h; subst h; rfl
+  | v :: vs, gs, h => by
+    simp only [toGVs] at h
+    cases h1 : toGV env v with
+    | none => rw [h1] at h; simp at h
+    | some g =>
+      cases h2 : toGVs env vs with
+      | none => rw [h1, h2] at h; simp at h
+      | some gs' =>
+        rw [h1, h2] at h; simp only [Option.some.injEq] at h; subst h
+        simp [toGVs_length h2]
+
+theorem hasTys_length {env : Env} : ∀ {vs : List Val} {tys : List Ty}, HasTys env vs tys → vs.length = tys.length
+  | [], [], _ => rfl
+  | [], _ :: _, h => by simp [HasTys] at h
+  | _ :: _, [], h => by simp [HasTys] at h
+  | v :: vs, t :: tys, h => by simp only [HasTys] at h; simp [hasTys_length h.2]
+
 theorem compileCall_frag {env : Env} {file : AFile} {G : List String} {Γ : Ctx} {name : String} {fty : Ty}
     {args : List Imm} {ty : Ty} (h : callOK env file G Γ (.var name fty) args ty = true) :
     compileCall env (.var name fty) args ty =
@@ -94,18 +113,18 @@ theorem sem_bin_fuel {P : Prog} {ρ : Sem.Env} {w : World} {n : Nat} {op : BinOp
 
 theorem stepV {env : Env} {file : AFile} {G : List String} {P : Prog} {F : GFile} (hl : Link env file G P F) {n : Nat}
     (hu : SimU env file G P F n) (hb : SimB env P F n) : SimV env file G P F (n + 1) := by
-  intro c Γ ρ w gρ gw Bad hctl hfrag hrel hw hgood hcal
+  intro c Γ K ρ w gρ gw Bad hctl hfrag hrel hkrel hw hgood hcal
   cases c with
   | imm i =>
     simp only [fragC] at hfrag
-    obtain ⟨v, gv, hs, hg, h3, h4⟩ := imm_both env P F hfrag hrel
+    obtain ⟨v, gv, hs, hg, h3, h4⟩ := imm_both P hl.ty hfrag hrel
     simp only [CExpr.toExpr, compileCExpr, CExpr.annTy]
     rw [hs n w]
-    exact ⟨gv, gw, hg gw, h3, h4, hw⟩
+    exact ⟨gv, gw, hg gw, h3, h4, hw, fun _ => rfl⟩
   | un op e ty =>
     simp only [fragC, Bool.and_eq_true] at hfrag
     obtain ⟨he, hop⟩ := hfrag
-    obtain ⟨v, gv, hs, hg, h3, h4⟩ := imm_both env P F he hrel
+    obtain ⟨v, gv, hs, hg, h3, h4⟩ := imm_both P hl.ty he hrel
     simp only [CExpr.toExpr, compileCExpr, CExpr.annTy]
     rw [Sem.eval]
     rcases sem_imm_any hs (w := w) n with h1 | h1
@@ -120,7 +139,7 @@ theorem stepV {env : Env} {file : AFile} {G : List String} {P : Prog} {F : GFile
         obtain ⟨x, rfl⟩ := hasTy_int h4
         have := toG_int h3; subst this
         simp only [Sem.unop, gUn]
-        exact ⟨_, gw, ev_neg_int (hg gw), rfl, ⟨rfl, rfl⟩, hw⟩
+        exact ⟨_, gw, ev_neg_int (hg gw), rfl, ⟨rfl, rfl⟩, hw, fun _ => rfl⟩
       | not =>
         simp only [unOK, Bool.and_eq_true] at hop
         have e1 := scalarEq_eq hop.1; have e2 := scalarEq_eq hop.2
@@ -128,12 +147,12 @@ theorem stepV {env : Env} {file : AFile} {G : List String} {P : Prog} {F : GFile
         obtain ⟨b, rfl⟩ := hasTy_bool h4
         have := toG_bool h3; subst this
         simp only [Sem.unop, gUn]
-        exact ⟨_, gw, ev_not (hg gw), rfl, trivial, hw⟩
+        exact ⟨_, gw, ev_not (hg gw), rfl, trivial, hw, fun _ => rfl⟩
   | bin op l r ty =>
     simp only [fragC, Bool.and_eq_true] at hfrag
     obtain ⟨⟨hl', hr'⟩, hop⟩ := hfrag
-    obtain ⟨a, ga, hsa, hga, h3a, h4a⟩ := imm_both env P F hl' hrel
-    obtain ⟨b, gb, hsb, hgb, h3b, h4b⟩ := imm_both env P F hr' hrel
+    obtain ⟨a, ga, hsa, hga, h3a, h4a⟩ := imm_both P hl.ty hl' hrel
+    obtain ⟨b, gb, hsb, hgb, h3b, h4b⟩ := imm_both P hl.ty hr' hrel
     have htl : l.ty = r.ty := by
       simp only [binOK, Bool.and_eq_true] at hop; exact scalarEq_eq hop.1.1
     rw [← htl] at h4b hop
@@ -157,25 +176,25 @@ theorem stepV {env : Env} {file : AFile} {G : List String} {P : Prog} {F : GFile
         · rw [sem_bin_fuel h1]; trivial
         · rw [sem_and_bool h1]
           cases x with
-          | false => exact ⟨_, gw, ev_and_false (hga gw), rfl, trivial, hw⟩
+          | false => exact ⟨_, gw, ev_and_false (hga gw), rfl, trivial, hw, fun _ => rfl⟩
           | true =>
             simp only [if_true]
             rcases sem_imm_any hsb (w := w) n with h2 | h2
             · rw [h2]; trivial
             · rw [h2]; simp only [Sem.binop, Bool.true_and]
-              exact ⟨_, gw, ev_and_true (hga gw) (hgb gw), rfl, trivial, hw⟩
+              exact ⟨_, gw, ev_and_true (hga gw) (hgb gw), rfl, trivial, hw, fun _ => rfl⟩
       · -- or
         rcases sem_imm_any hsa (w := w) n with h1 | h1
         · rw [sem_bin_fuel h1]; trivial
         · rw [sem_or_bool h1]
           cases x with
-          | true => exact ⟨_, gw, ev_or_true (hga gw), rfl, trivial, hw⟩
+          | true => exact ⟨_, gw, ev_or_true (hga gw), rfl, trivial, hw, fun _ => rfl⟩
           | false =>
             simp only [Bool.false_eq_true, if_false]
             rcases sem_imm_any hsb (w := w) n with h2 | h2
             · rw [h2]; trivial
             · rw [h2]; simp only [Sem.binop, Bool.false_or]
-              exact ⟨_, gw, ev_or_false (hga gw) (hgb gw), rfl, trivial, hw⟩
+              exact ⟨_, gw, ev_or_false (hga gw) (hgb gw), rfl, trivial, hw, fun _ => rfl⟩
     · have hlog' : Goml.C01.isLogic op = false := by simpa using hlog
       rw [sem_bin_nonlogic hlog']
       rcases sem_imm_any hsa (w := w) n with h1 | h1
@@ -199,11 +218,11 @@ theorem stepV {env : Env} {file : AFile} {G : List String} {P : Prog} {F : GFile
           · rw [hv]; simp only
             obtain ⟨gv, hgv, hgt⟩ := Goml.C01.binop_ok_agree op a b v ga gb hlog' h3a' h3b' hv
             rw [← gBin_eq_gop] at hgv
-            exact ⟨gv, gw, ev_bin (by rw [isLogicG_gBin]; exact hlog') (hga gw) (hgb gw) hgv, by rw [toGV_scalar hvt hscr]; exact hgt, hvt, hw⟩
+            exact ⟨gv, gw, ev_bin (by rw [isLogicG_gBin]; exact hlog') (hga gw) (hgb gw) hgv, by rw [toGV_scalar hvt hscr]; exact hgt, hvt, hw, fun _ => rfl⟩
           · rw [hk]; simp only
             have hgk := Goml.C01.binop_panic_agree op a b ga gb k hlog' h3a' h3b' hk
             rw [← gBin_eq_gop] at hgk
-            exact ⟨gw, ev_bin_err (by rw [isLogicG_gBin]; exact hlog') (hga gw) (hgb gw) hgk, hw⟩
+            exact ⟨gw, ev_bin_err (by rw [isLogicG_gBin]; exact hlog') (hga gw) (hgb gw) hgk, hw, rfl⟩
   | call f args ty =>
     simp only [fragC] at hfrag
     cases f with
@@ -231,7 +250,7 @@ theorem stepV {env : Env} {file : AFile} {G : List String} {P : Prog} {F : GFile
           obtain ⟨⟨hbn, hargs⟩, hty⟩ := hcase
           have hbn' : name ∈ builtinNames := by simpa using hbn
           have hty' := scalarEq_eq hty; subst hty'
-          obtain ⟨vs, gvs, hrelA, hgA, hsA⟩ := imms_both env P F hrel hargs
+          obtain ⟨vs, gvs, hrelA, hgA, hsA⟩ := imms_both P hl.ty hrel hargs
           rcases hsA (n + 1) w with h2 | h2
           · rw [h2]; trivial
           · rw [h2]; simp only
@@ -241,12 +260,12 @@ theorem stepV {env : Env} {file : AFile} {G : List String} {P : Prog} {F : GFile
             cases hap : Sem.apply (n + 1) P w (.fn name) vs with
             | ok v w' =>
               rintro ⟨gv, gw', hc, h3, h4, h5⟩
-              exact ⟨gv, gw', ev_call (ev_var_none hgo) (hgA gw) hc, h3, h4, h5⟩
+              exact ⟨gv, gw', ev_call (ev_var_none hgo) (hgA gw) hc, h3, h4, h5, fun h => by simp [pureC] at h⟩
             | fail fl w' =>
               cases fl with
               | panic k =>
                 rintro ⟨gw', hc, h5⟩
-                exact ⟨gw', ev_call (ev_var_none hgo) (hgA gw) hc, h5⟩
+                exact ⟨gw', ev_call (ev_var_none hgo) (hgA gw) hc, h5, rfl⟩
               | fuel => intro _; trivial
               | stuck s => intro _; trivial
         | none =>
@@ -261,7 +280,7 @@ theorem stepV {env : Env} {file : AFile} {G : List String} {P : Prog} {F : GFile
               have := List.find?_some hfind; simpa using this
             have hG' : g.name ∈ G := by rw [hgname]; simpa using hG
             have hty' := scalarEq_eq hty; subst hty'
-            obtain ⟨vs, gvs, hrelA, hgA, hsA⟩ := imms_both env P F hrel hargs
+            obtain ⟨vs, gvs, hrelA, hgA, hsA⟩ := imms_both P hl.ty hrel hargs
             rcases hsA (n + 1) w with h2 | h2
             · rw [h2]; trivial
             · rw [h2]; simp only
@@ -275,12 +294,12 @@ theorem stepV {env : Env} {file : AFile} {G : List String} {P : Prog} {F : GFile
               cases hap : Sem.apply (n + 1) P w (.fn name) vs with
               | ok v w' =>
                 rintro ⟨gv, gw', hc, h3, h4, h5⟩
-                exact ⟨gv, gw', ev_call (ev_var_none hgo) (hgA gw) hc, h3, h4, h5⟩
+                exact ⟨gv, gw', ev_call (ev_var_none hgo) (hgA gw) hc, h3, h4, h5, fun h => by simp [pureC] at h⟩
               | fail fl w' =>
                 cases fl with
                 | panic k =>
                   rintro ⟨gw', hc, h5⟩
-                  exact ⟨gw', ev_call (ev_var_none hgo) (hgA gw) hc, h5⟩
+                  exact ⟨gw', ev_call (ev_var_none hgo) (hgA gw) hc, h5, rfl⟩
                 | fuel => intro _; trivial
                 | stuck s => intro _; trivial
     | prim p t => simp [callOK] at hfrag
@@ -290,7 +309,30 @@ theorem stepV {env : Env} {file : AFile} {G : List String} {P : Prog} {F : GFile
   | matchE s arms d ty => simp [isCtl] at hctl
   | constr c args ty =>
     cases c with
-    | enum tn vn' vi => simp [fragC] at hfrag
+    | enum tn vn' vi =>
+      simp only [fragC, Bool.and_eq_true] at hfrag
+      obtain ⟨hty, hcase⟩ := hfrag
+      have hty' := scalarEq_eq hty; subst hty'
+      cases hv : variantOf env (.enum tn) vi with
+      | none => rw [hv] at hcase; simp at hcase
+      | some v =>
+        obtain ⟨n, vname, tys⟩ := v
+        rw [hv] at hcase; simp only at hcase
+        obtain ⟨hE, hn, d, hd, hvar⟩ := variantOf_spec hv
+        injection hE with hE; subst hE
+        obtain ⟨vs, gvs, hrelA, hgF, hsA⟩ := tfields_both P hl.ty hrel 0 hcase
+        obtain ⟨hval, hT⟩ := enum_value hn hd hvar hrelA
+        obtain ⟨_, _, _, hlen⟩ := toGVs_of_args hrelA
+        have hvt : variantTy env (.enum tn) vi = .name (variantGoName env tn vname) := by
+          simp [variantTy, lookupVariantName, Goml.Mono.constrName, hd, hvar, variantGoName]
+        simp only [CExpr.toExpr, compileCExpr, CExpr.annTy, hvt]
+        rw [Sem.eval]
+        rcases hsA n w with h2 | h2
+        · rw [h2]; trivial
+        · rw [h2]; simp only
+          have hgo := ev_slit_name (name := variantGoName env tn vname) (hgF gw)
+          rw [slit_variant hl.ty hn hd hvar hlen] at hgo
+          exact ⟨_, gw, hgo, hval, hT, hw, fun _ => rfl⟩
     | struct sn =>
       simp only [fragC, Bool.and_eq_true] at hfrag
       obtain ⟨⟨hty, hgood⟩, hcase⟩ := hfrag
@@ -300,8 +342,8 @@ theorem stepV {env : Env} {file : AFile} {G : List String} {P : Prog} {F : GFile
       | none => rw [hd] at hcase; simp at hcase
       | some d =>
         rw [hd] at hcase; simp only at hcase
-        obtain ⟨vs, gvs, hrelA, hgF, hsA⟩ := fields_both env P F hrel hcase
-        obtain ⟨hv, hT⟩ := struct_value hl.structs hsn hd hrelA
+        obtain ⟨vs, gvs, hrelA, hgF, hsA⟩ := fields_both P hl.ty hrel hcase
+        obtain ⟨hv, hT⟩ := struct_value hl.ty.closed hsn hd hrelA
         obtain ⟨_, _, _, hlen⟩ := toGVs_of_args hrelA
         simp only [CExpr.toExpr, compileCExpr, CExpr.annTy, hd, Option.map_some, Option.getD_some]
         rw [Sem.eval]
@@ -309,27 +351,86 @@ theorem stepV {env : Env} {file : AFile} {G : List String} {P : Prog} {F : GFile
         · rw [h2]; trivial
         · rw [h2]; simp only
           have hgo := ev_slit_name (name := gid sn) (hgF gw)
-          rw [slit_struct hl.structs hsn (hl.table sn hsn) hd (by simpa using hlen)] at hgo
+          rw [slit_struct hl.ty.closed hsn (hl.ty.table sn hsn) hd (by simpa using hlen)] at hgo
           have hgt : goTy (.struct sn) = .name (gid sn) := by simp [goTy]
           rw [hgt]
-          exact ⟨_, gw, hgo, hv, hT, hw⟩
+          exact ⟨_, gw, hgo, hv, hT, hw, fun _ => rfl⟩
   | tuple items ty => simp [fragC] at hfrag
   | array items ty => simp [fragC] at hfrag
   | cget e c idx ty =>
     cases c with
-    | enum tn vn' vi => simp [fragC] at hfrag
+    | enum tn vn' vi =>
+      simp only [fragC, Bool.and_eq_true] at hfrag
+      obtain ⟨⟨⟨hK, he⟩, hety⟩, hcase⟩ := hfrag
+      cases e with
+      | prim p t => simp at hK
+      | tag i t => simp at hK
+      | var x xty =>
+        simp only [beq_iff_eq] at hK
+        have hety' : xty = .enum tn := scalarEq_eq hety
+        subst hety'
+        obtain ⟨v, gv, hs, hg, h3, h4⟩ := imm_both P hl.ty he hrel
+        obtain ⟨en, vs, hlk⟩ := hkrel x vi hK
+        have hv0 := hs 0 w
+        simp only [Imm.toExpr] at hv0
+        rw [Sem.eval] at hv0; simp only [hlk] at hv0
+        injection hv0 with hv0; subst hv0
+        simp only [Imm.ty, HasTy] at h4
+        obtain ⟨hen, hn, hfields⟩ := h4
+        subst hen
+        cases hv : variantOf env (.enum en) vi with
+        | none => rw [hv] at hcase; simp at hcase
+        | some vv =>
+          obtain ⟨n, vname, tys⟩ := vv
+          rw [hv] at hcase; simp only at hcase
+          obtain ⟨hE, _, d, hd, hvar⟩ := variantOf_spec hv
+          injection hE with hE; subst hE
+          rw [hd] at hfields; simp only [hvar] at hfields
+          cases hti : tys[idx]? with
+          | none => rw [hti] at hcase; simp at hcase
+          | some t =>
+            rw [hti] at hcase; simp only at hcase
+            have hty' := scalarEq_eq hcase; subst hty'
+            simp only [toGV, hd] at h3
+            cases hgs : toGVs env vs with
+            | none => rw [hgs] at h3; simp at h3
+            | some gs =>
+              rw [hgs] at h3; simp only [hvar, Option.some.injEq] at h3; subst h3
+              obtain ⟨vi', gi, hvi, hgi, hri, hti'⟩ := struct_field idx hgs hfields hti
+              have hlenG : gs.length = tys.length := by rw [toGVs_length hgs, hasTys_length hfields]
+              obtain ⟨_, _, _, _, hvs⟩ := good_enum hl.ty.closed hn
+              have hcf : cgetField env (.var x (.enum en)) (.enum en vn' vi) idx = some (fieldN idx, ty) := by
+                simp [cgetField, hd, hvar, hti]
+              simp only [CExpr.toExpr, compileCExpr, CExpr.annTy, hcf, Option.getD_some, Imm.toExpr]
+              rw [Sem.eval]
+              rcases sem_imm_any hs (w := w) n with h1 | h1
+              · simp only [Imm.toExpr] at h1; rw [h1]; trivial
+              · simp only [Imm.toExpr] at h1; rw [h1]; simp only [hvi]
+                have hidx : idx < tys.length := by
+                  rcases Nat.lt_or_ge idx tys.length with h | h
+                  · exact h
+                  · rw [List.getElem?_eq_none h] at hti; cases hti
+                have hni : (fieldNames 0 gs.length)[idx]? = some (fieldN idx) := by
+                  rw [hlenG]; have := fieldNames_get 0 tys.length idx hidx; simpa using this
+                have hd' := hd
+                obtain ⟨d2, hd2, _, _, hvs2⟩ := good_enum hl.ty.closed hn
+                rw [hd] at hd2; injection hd2 with hd2; subst hd2
+                have hnd := (hvs2 _ (List.mem_of_getElem? hvar)).2
+                rw [← hlenG] at hnd
+                have hlk2 := lookup_zip _ gs idx (fieldN idx) gi hnd hni hgi
+                exact ⟨gi, gw, ev_field_struct (hg gw) hlk2, hri, hti', hw, fun _ => rfl⟩
     | struct sn =>
       simp only [fragC, Bool.and_eq_true] at hfrag
-      obtain ⟨⟨⟨he, hety⟩, _⟩, hcase⟩ := hfrag
+      obtain ⟨⟨he, hety⟩, hcase⟩ := hfrag
       have hety' := scalarEq_eq hety
-      obtain ⟨v, gv, hs, hg, h3, h4⟩ := imm_both env P F he hrel
+      obtain ⟨v, gv, hs, hg, h3, h4⟩ := imm_both P hl.ty he hrel
       rw [hety'] at h4
       -- the value is a struct value of an admitted struct
       cases v <;> simp only [HasTy] at h4 <;> try exact h4.elim
       rename_i n' vs
       obtain ⟨hn, hsn, hfields⟩ := h4
       subst hn
-      obtain ⟨d, hd, hgen, hnd, _⟩ := good_struct hl.structs hsn
+      obtain ⟨d, hd, hgen, hnd, _⟩ := good_struct hl.ty.closed hsn
       rw [hd] at hfields
       rw [cgetField_struct hety' hd hgen] at hcase
       cases hf : d.fields[idx]? with
@@ -351,7 +452,7 @@ theorem stepV {env : Env} {file : AFile} {G : List String} {P : Prog} {F : GFile
           · rw [h1]; simp only [hvi]
             have hni : (d.fields.map fun f => gid f.1)[idx]? = some (gid p.1) := by simp [hf]
             have hlk := lookup_zip _ gs idx (gid p.1) gi hnd hni hgi
-            exact ⟨gi, gw, ev_field_struct (hg gw) hlk, hri, hty' ▸ hti', hw⟩
+            exact ⟨gi, gw, ev_field_struct (hg gw) hlk, hri, hty' ▸ hti', hw, fun _ => rfl⟩
   | toDyn tr forTy e ty => simp [fragC] at hfrag
   | dynCall tr m recv args ty => simp [fragC] at hfrag
   | go e ty => simp [fragC] at hfrag
